@@ -168,8 +168,11 @@ class AbsoluteModelRef:
     """
 
     class Context:
-        data = threading.local()
-        data.context: ContextInjectionType = None
+        class _Data(threading.local):
+            # Class level default: attributes set on a threading.local instance exist only in the thread that set them
+            context: ContextInjectionType = None
+
+        data = _Data()
 
         def __init__(self, patches: ContextInjectionType):
             self.context: ContextInjectionType = patches
